@@ -5,11 +5,15 @@ Driver for the flat-system family (C20).  One line:
        `fr x(n) u z(n+1)`                      -> `ok fwd(n+1) revx(n) revu rtx(n) rtu rtz(n+1)`
        `p2p <P|B> N T T0 Tf x0(n) u0 xf(n) uf k t1..tk`
                                                -> `ok N alpha(N) (x(n) u)*k`
+       `hist nS (x(n) u)*nS nF z(n+1)*nF k (<fwd|rev> idx)*k`   (a call history on registers,
+                                               `Model/FlatHist.lean`; all registers at the end)
+                                               -> `ok nS' (x(n) u)*nS' nF' z(n+1)*nF'`
 When the kind checks (`isctime`, `issiso`) fail the line stops after `<dt> <p> <m>`.
 Trusted glue.
 -/
 import CtrlVerif.Driver.Mat
 import CtrlVerif.Model.Flat
+import CtrlVerif.Model.FlatHist
 import CtrlVerif.Driver.FlatMulti
 
 namespace CtrlVerif.Driver.Flat
@@ -39,9 +43,31 @@ def pBasis : P (Basis Q) := do
   | "B" => pure (.bezier N T)
   | _ => throw s!"basis:{k}"
 
+def pCall : P HCall := do
+  let k ← tok
+  let i ← pNat
+  match k with
+  | "fwd" => pure (.fwd i)
+  | "rev" => pure (.rev i)
+  | _ => throw s!"call:{k}"
+
 def runOp {n : Nat} (L : LinFlat n Q) : P String := do
   let op ← tok
   match op with
+  | "hist" =>
+    let S ← pList (do let x ← pVec n; let u ← pRat; pure (x, u))
+    let F ← pList (pVec (n + 1))
+    let cs ← pList pCall
+    match (HStore.mk S F).run L cs with
+    | .error e => pure (showErr e)
+    | .ok st =>
+      let mut s := s!"ok {st.S.length}"
+      for xu in st.S do
+        s := s ++ showVec xu.1 ++ " " ++ showRat xu.2
+      s := s ++ s!" {st.F.length}"
+      for z in st.F do
+        s := s ++ showVec z
+      pure s
   | "sys" =>
     pure (s!"ok {n}" ++ showVec L.F ++ showSq L.T ++ showSq L.Tinv ++ showVec L.Cf)
   | "fr" =>
